@@ -866,17 +866,27 @@ func (m *MutableOverlayWorld) AddFeature(f Feature) error {
 
 	existing := (*m.features)[f.FeatureID()]
 	references := allReferences(f, m)
-	if existing != nil {
+	if existing != nil || m.base.HasFeatureWithID(f.FeatureID()) {
+		// Features that reference the one we're replacing need to
+		// remain valid, whether it lives in the overlay or only in
+		// the base.
+		restore := func() {
+			if existing != nil {
+				(*m.features)[f.FeatureID()] = existing
+			} else {
+				delete(*m.features, f.FeatureID())
+			}
+		}
 		(*m.features)[f.FeatureID()] = f
 
 		for _, reference := range references {
 			if err := ValidateFeature(NewFeatureFromWorld(reference), &ValidateOptions{InvertClockwisePaths: false}, m); err != nil {
-				(*m.features)[f.FeatureID()] = existing
+				restore()
 				return err
 			}
 		}
 
-		(*m.features)[f.FeatureID()] = existing
+		restore()
 	}
 
 	modified := NewModifiedFeaturesWithCopies(f, references, m.features, m)
